@@ -161,6 +161,13 @@ Definition add_absent {P V} (walk : bytes * P -> option V) (range_order : list (
 Definition list_fields {V} (can : V -> bool) (range_order : list (bytes * V)) : list bytes :=
   sort_strings (map fst (filter (fun kv => can (snd kv)) range_order)).
 
+(* protobuild Package.checkDuplicateExports (fix 5b3591a; called by loadLocalPackage for every file before includeIO):
+   `names := maps.Keys(file.Summary.Exports); sort.Strings(names)`, then the first name the package already exports
+   ends loading with an error positioned in this file.  On a valid bundle (no type exported twice in a package) it
+   never fires *)
+Definition check_duplicate_exports {V} (pkg_exports : list (bytes * V)) (keys_order : list bytes) : option bytes :=
+  find (fun n => match map_get n pkg_exports with Some _ => true | None => false end) (sort_strings keys_order).
+
 (* ---- package loading on a PackageSet ------------------------------------------------------- *)
 (* A bundle: packages by name, each a list of source files; a file has a name, the type names it
    exports and the packages it depends on. [F] is whatever else a file carries (its content),
